@@ -15,6 +15,7 @@ class Abstraction:
         self.cache = {}
         self.prod = {}
         self.factors_of = {}
+        self.budget = 60000
         self.axioms = []
         self.n = 0
 
@@ -23,6 +24,9 @@ class Abstraction:
         r = self.cache.get(i)
         if r is not None:
             return r
+        self.visited = getattr(self, "visited", 0) + 1
+        if self.visited > self.budget:
+            raise OverflowError("abstraction budget exceeded")
         r = self._term(e)
         self.cache[i] = r
         return r
@@ -80,6 +84,9 @@ class Abstraction:
         stack = [e]
         while stack:
             x = stack.pop()
+            self.visited = getattr(self, "visited", 0) + 1
+            if self.visited > self.budget:
+                raise OverflowError("abstraction budget exceeded")
             if z3.is_rational_value(x) or z3.is_int_value(x):
                 coef = z3.simplify(coef * x)
             elif z3.is_app(x) and x.decl().kind() == z3.Z3_OP_MUL:
@@ -126,7 +133,8 @@ class Abstraction:
         return y
 
 
-def abstract(formulas):
-    A = Abstraction()
+def abstract(formulas, A=None):
+    A = A or Abstraction()
+    A.visited = 0
     out = [A.term(f) for f in formulas]
     return out + A.axioms
